@@ -339,6 +339,9 @@ def run(F, R, tier, M=None):
                     "indeterminate on a fresh object (undefined behaviour when read, non-deterministic output)" % (fl["name"], rn),
                     key="J|%s|%s" % (rn, fl["name"]))
 
+    # ---- K definite assignment of entry-wise built Eigen locals ----------------------------------------------------
+    R.guard(_eigen_locals, F, R)
+
     # ---- I allocation -------------------------------------------------------------------------------------
     R.rule("I", "raw new only in the C constructors, delete only in the C free functions", 5)
     for k, f in sorted(F.functions.items()):
@@ -448,6 +451,83 @@ def _check_diagnostics(F, R, VS, main, prog):
         # handler case: print_error in the same handler body counts (before covers siblings)
         R.check("C", ok, "%s @%s" % (f["name"], n.get("l")), F.loc(f, n), why,
                 key="C|%s|%s" % (f["name"], n.get("k")))
+
+
+def _eigen_locals(F, R):
+    """Eigen does not initialise fixed-size objects: a default-constructed local must have every entry assigned (entry by
+    entry with folded indices, by a full comma initialiser, or by setZero/setConstant/fill/setIdentity) before it is used"""
+    from .terms import Evaluator, MatVal
+    R.rule("K", "every default-constructed fixed-size Eigen local (Eigen leaves it uninitialised) has all its entries assigned: "
+                "entry-wise with folded indices (loops unrolled), by a full comma initialiser or by setZero/setConstant/fill", 25)
+    # helpers that complete a matrix in place (symmetrize, hermitianize: mutable Eigen reference parameter) are evaluated
+    E = Evaluator(F, inline=lambda n, g: any(p_.get("ref") and not p_.get("cref") and "Eigen::" in str(p_.get("t")) for p_ in g["params"])
+                  and not g["file"].endswith("gm2_linalg.hpp"), max_depth=3)
+    undecided = []
+    done = set()
+    for k, f in sorted(F.functions.items(), key=lambda x: (x[1]["file"], x[1]["line"])):
+        if not (F.in_lib(f) or f["file"] == "src/gm2calc.cpp") or f["file"].endswith("slhaea.h") or f["file"].endswith("gm2_linalg.hpp"):
+            continue
+        locs = []
+        for st in walk(f["body"]):
+            if st.get("k") == "DeclStmt":
+                for d in st.get("decls", ()):
+                    t = str(d.get("t") or "")
+                    ini = d.get("init")
+                    if "id" in d and re.match(r"^(const )?Eigen::(Matrix|Array)<", t) and \
+                            (ini is None or (ini.get("k") == "CXXConstructExpr" and not ini.get("c"))):
+                        locs.append(d)
+        if not locs or (f["name"], f["file"], f["line"]) in done:
+            continue
+        done.add((f["name"], f["file"], f["line"]))
+        fr = None
+        try:
+            v, fr = E.function_value(f)
+        except Exception:
+            fr = None
+        for d in locs:
+            dims = _dims(d.get("t"))
+            inst = "%s: %s (%s)" % (f["name"].split("::")[-1], d.get("name"), "x".join(str(x) for x in dims) if dims else "?")
+            # idioms on the syntax tree
+            whole = False
+            for n in walk(f["body"]):
+                if n.get("k") == "CXXMemberCallExpr":
+                    o = call_object(n)
+                    me = n["c"][0] if n.get("c") else {}
+                    while me.get("k") in ("ImplicitCastExpr", "ParenExpr"):
+                        me = me["c"][0]
+                    if o is not None and strip_all(o) is not None and strip_all(o).get("id") == d["id"] and \
+                            me.get("sn") in ("setZero", "setConstant", "fill", "setIdentity", "setOnes"):
+                        whole = True
+                if n.get("k") == "CXXOperatorCallExpr" and n.get("op") == "<<" and len(n.get("c", [])) >= 3:
+                    l_ = strip_all(n["c"][1])
+                    if l_ is not None and l_.get("k") == "DeclRefExpr" and l_.get("id") == d["id"]:
+                        # count the operands of the comma initialiser: the enclosing chain of operator,
+                        cnt, cur = 1, n
+                        S_ = Struct(f)
+                        par = S_.parent(cur)
+                        while par is not None:
+                            if par.get("k") == "CXXOperatorCallExpr" and par.get("op") == ",":
+                                cnt += 1
+                            elif par.get("k") not in ("ImplicitCastExpr", "ExprWithCleanups", "MaterializeTemporaryExpr", "CXXBindTemporaryExpr"):
+                                break
+                            cur, par = par, S_.parent(par)
+                        if dims and cnt == dims[0] * dims[1]:
+                            whole = True
+            val = fr.env.get(d["id"]) if fr is not None else None
+            if whole:
+                R.ok("K", inst + ": whole-object initialisation", F.loc(f))
+                continue
+            if isinstance(val, MatVal) and dims:
+                have = set(val.el)
+                need = {(i, k_) for i in range(dims[0]) for k_ in range(dims[1])}
+                miss = sorted(need - have)
+                if have:
+                    R.check("K", not miss, inst + ": %d entries assigned" % len(have), F.loc(f),
+                            "entries %s of %s are never assigned: Eigen leaves them uninitialised (indeterminate values enter the "
+                            "result)" % (miss[:4], d.get("name")), key="K|%s|%s" % (f["name"].split("::")[-1], d.get("name")))
+                    continue
+            undecided.append(inst)
+    R.analysed["eigen_locals_not_decided"] = undecided
 
 
 def narrowing_check(F, R, rid):
